@@ -551,12 +551,12 @@ def explore(ctx):
             plan += [("single", ("SSIdat@S", "SSIcov@S", "EFDD")), ("single", ("EFDD@S", "FSDD@S", "SSIcov")),
                      ("preger", ("SSIdat_MS@S", "SSIcov_MS@S", "FDD_MS"))]
             plan += [("preger", s) for s in itertools.combinations(ms_menu, 3)]
-            depth, ud = 7, 3
+            depth, ud = 5, 3
         else:
             plan = [("single", ("FDD", "SSIcov", "pLSCF")), ("single", ("EFDD", "SSIdat", "FSDD")),
                     ("single", ("SSIdat@S", "SSIcov@S", "EFDD")),
                     ("preger", ("FDD_MS", "SSIcov_MS", "pLSCF_MS")), ("preger", ("EFDD_MS", "SSIdat_MS", "FDD_MS"))]
-            depth, ud = 5, 2
+            depth, ud = 4, 2
         ctx.bounds = {"plan": [[k, list(s)] for k, s in plan], "merged_bfs_depth": depth, "unmerged_depth": ud,
                       "events_per_subset": [list(e) for e in events_for(*plan[0])], "samples": NS, "fs": FS}
         compute_references(plan, ctx.seed)
